@@ -50,6 +50,9 @@ def documented(f):
 
 
 def run(ctx, model: Model):
+    from . import signatures as _sig
+    _n_sig = _sig.check(ctx, model, "R-SIGNATURE", lambda k: True)
+    ctx.floor("R-SIGNATURE", _n_sig, 1, "public entry points")
     ctx.explanation = __doc__.strip().replace("\n", " ")
     ctx.assumptions += [
         "not decided: termination of the `while` worklists of the class algebra for arbitrary operands (C07 explores them on small "
